@@ -22,6 +22,7 @@ struct PeerStream {
     recv_dropped: bool,   // the application dropped (or never took) the receive handle: h2 discards the data (F3)
     odd_head: bool,       // the peer's head was unusual (content-length, 204, malformed): not a stream for C09's DATA entries
     peer_reset: bool,     // the peer sent RST_STREAM
+    promised: bool,       // client role: a stream the peer has promised (PUSH_PROMISE); `responded` = the pushed response began
 }
 
 struct G<'a> {
@@ -48,6 +49,10 @@ struct G<'a> {
     peer_goaway_last: Option<u32>,
     /// was the last operation a poll of the connection?
     last_was_poll: bool,
+    /// client role: the next stream id the scripted peer promises
+    next_push_id: u32,
+    /// the client accepts pushes (SETTINGS_ENABLE_PUSH not switched off by the history's options)
+    push_ok: bool,
     accepted: BTreeSet<u32>,
     flavor: &'static str,
 }
@@ -321,6 +326,117 @@ impl<'a> G<'a> {
         }
         self.op("cn_budget inf".to_string());
         self.op("cn_poll".to_string());
+    }
+
+    /// server push as an application uses it: the pushes of a request are asked for and polled (parking the
+    /// caller), the peer promises a stream, the promise is collected, the pushed response arrives and is read,
+    /// and the parent's response ends — which must wake whoever still waits for more pushes (F32)
+    fn push_prelude(&mut self) {
+        if !self.push_ok || self.peer_goaway_last.is_some() {
+            return;
+        }
+        let k = self.nslots;
+        self.req(true, "GET");
+        self.op("cn_poll".to_string());
+        if self.dead || self.nslots <= k {
+            return;
+        }
+        let sid = self.slot_sid[k];
+        if !self.streams.get(&sid).map(|s| s.headers_seen).unwrap_or(false) {
+            return;
+        }
+        self.op(format!("cn_takepushes {}", k));
+        if self.rng.chance(2, 3) {
+            self.op(format!("cn_pollpushed {}", k));
+        }
+        let npush = 1 + self.rng.below(2) as usize;
+        let mut promised_ids = vec![];
+        for _ in 0..npush {
+            let promised = self.next_push_id;
+            self.next_push_id += 2;
+            let iws = self.our_iws;
+            self.streams.insert(
+                promised,
+                PeerStream { credit: iws, headers_seen: true, we_closed: true, promised: true, recv_dropped: true, ..Default::default() },
+            );
+            let mut pl = promised.to_be_bytes().to_vec();
+            pl.extend_from_slice(&[0x82, 0x86, 0x84, 0x41, 0x01, b'a']);
+            self.peer(wire(5, 4, sid, &pl));
+            promised_ids.push(promised);
+        }
+        self.op("cn_poll".to_string());
+        // collect the promises (or not)
+        let mut pushed_slots = vec![];
+        let collect = self.rng.below(npush as u64 + 2) as usize;
+        for _ in 0..collect {
+            let a = self.op(format!("cn_pollpushed {}", k));
+            if let Some(rest) = Self::field(&a, "r=").strip_prefix("ok:") {
+                let p: Vec<&str> = rest.split(':').collect();
+                let psid: u32 = p[1].parse().unwrap_or(0);
+                pushed_slots.push(self.nslots);
+                self.nslots += 1;
+                self.slot_sid.push(psid);
+                if let Some(s) = self.streams.get_mut(&psid) {
+                    s.recv_dropped = false;
+                }
+            }
+        }
+        // the pushed responses
+        for psid in promised_ids.clone() {
+            if self.rng.chance(3, 4) {
+                let eos = self.rng.chance(1, 2);
+                self.peer(wire(1, 4 | eos as u8, psid, &[0x88]));
+                if let Some(s) = self.streams.get_mut(&psid) {
+                    s.responded = true;
+                    s.peer_closed = eos;
+                }
+                if !eos && self.rng.chance(2, 3) {
+                    self.peer_data(psid);
+                }
+            }
+        }
+        self.op("cn_poll".to_string());
+        for ps in pushed_slots.clone() {
+            self.op(format!("cn_resp {}", ps));
+            if self.rng.chance(1, 2) {
+                self.op(format!("cn_read {}", ps));
+            }
+        }
+        // whoever waits for more pushes parks again; then the parent's response ends
+        if self.rng.chance(2, 3) {
+            self.op(format!("cn_pollpushed {}", k));
+        }
+        let room = self.conn_credit >= 3 && self.streams.get(&sid).map(|s| s.credit >= 3).unwrap_or(false);
+        let mode = self.rng.below(3);
+        match if mode == 1 && !room { 0 } else { mode } {
+            0 => {
+                self.peer(wire(1, 5, sid, &[0x88]));
+            }
+            1 => {
+                self.peer(wire(1, 4, sid, &[0x88]));
+                self.peer(wire(0, 1, sid, b"end"));
+                self.conn_credit -= 3;
+                if let Some(s) = self.streams.get_mut(&sid) {
+                    s.credit -= 3;
+                }
+            }
+            _ => {
+                self.peer(wire(1, 4, sid, &[0x88]));
+                self.peer(wire(1, 5, sid, &[0x00, 0x03, b'x', b'-', b't', 0x01, b'1']));
+            }
+        }
+        if let Some(s) = self.streams.get_mut(&sid) {
+            s.responded = true;
+            s.peer_closed = true;
+        }
+        self.op("cn_poll".to_string());
+        self.op(format!("cn_pollpushed {}", k));
+        if self.rng.chance(1, 2) {
+            self.op(format!("cn_resp {}", k));
+        }
+        if self.rng.chance(1, 3) {
+            self.op(format!("cn_drop {} pushes", k));
+        }
     }
 
     /// a receive handle is dropped with so much unread DATA behind it that giving the octets back makes a
@@ -658,7 +774,9 @@ impl<'a> G<'a> {
             67..=74 => {
                 // peer WINDOW_UPDATE
                 let inc = *self.rng.pick(&[1u32, 10, 1000, 16384, 65535, 100000]);
-                let c = self.live_sids(|s| s.headers_seen);
+                // (not on a promised stream whose response has not begun: reserved (remote) admits HEADERS, RST_STREAM
+                //  and PRIORITY only)
+                let c = self.live_sids(|s| s.headers_seen && !(s.promised && !s.responded));
                 let sid = if self.rng.chance(1, 2) || c.is_empty() { 0 } else { *self.rng.pick(&c) };
                 self.peer(wire(8, 0, sid, &inc.to_be_bytes()));
             }
@@ -728,6 +846,44 @@ impl<'a> G<'a> {
             95 => {
                 if let Some(k) = self.pick_slot() {
                     self.op(format!("cn_rtrailers {}", k));
+                }
+            }
+            96 => {
+                // the application asks for the pushes of a request
+                if let Some(k) = self.pick_slot() {
+                    self.op(format!("cn_takepushes {}", k));
+                }
+            }
+            97 => {
+                if let Some(k) = self.pick_slot() {
+                    let a = self.op(format!("cn_pollpushed {}", k));
+                    if let Some(rest) = Self::field(&a, "r=").strip_prefix("ok:") {
+                        // a new slot: the future of the pushed response
+                        let p: Vec<&str> = rest.split(':').collect();
+                        let sid: u32 = p[1].parse().unwrap_or(0);
+                        self.nslots += 1;
+                        self.slot_sid.push(sid);
+                        if let Some(s) = self.streams.get_mut(&sid) {
+                            s.recv_dropped = false;
+                        }
+                    }
+                }
+            }
+            98 if self.push_ok && self.peer_goaway_last.is_none() => {
+                // peer: PUSH_PROMISE on a stream whose response it has not finished, promising its next even id
+                let c = self.live_sids(|s| s.headers_seen && !s.peer_closed && !s.promised && !s.we_reset && !s.peer_reset);
+                if !c.is_empty() && self.next_push_id < 0x7fff_fff0 {
+                    let sid = *self.rng.pick(&c);
+                    let promised = self.next_push_id;
+                    self.next_push_id += 2;
+                    let iws = self.our_iws;
+                    self.streams.insert(
+                        promised,
+                        PeerStream { credit: iws, headers_seen: true, we_closed: true, promised: true, recv_dropped: true, ..Default::default() },
+                    );
+                    let mut pl = promised.to_be_bytes().to_vec();
+                    pl.extend_from_slice(&[0x82, 0x86, 0x84, 0x41, 0x01, b'a']);
+                    self.peer(wire(5, 4, sid, &pl));
                 }
             }
             91 if !flow => {
@@ -1440,6 +1596,8 @@ pub fn generate(profile: &str, rng: &mut Rng, cases: usize, out: &mut dyn Write)
             reset_default: !opts.iter().any(|o: &String| o.starts_with("reset_")),
             peer_goaway_last: None,
             last_was_poll: false,
+            next_push_id: 2,
+            push_ok: role == "client" && !opts.iter().any(|o: &String| o.starts_with("push=0")),
             accepted: BTreeSet::new(),
             flavor,
         };
@@ -1474,6 +1632,9 @@ pub fn generate(profile: &str, rng: &mut Rng, cases: usize, out: &mut dyn Write)
         }
         if flavor != "c09" && g.rng.chance(1, 6) {
             g.unread_drop_prelude();
+        }
+        if role == "client" && flavor != "c09" && g.rng.chance(1, 5) {
+            g.push_prelude();
         }
         let nops = if flavor == "c09" { 5 + g.rng.below(60) } else { 20 + g.rng.below(180) };
         // in half of the histories the connection is often polled right after a single operation, although nobody
